@@ -56,7 +56,7 @@ def k10_signature(ty, info):
     return has_union and info.get("impl_model_agrees") and not info.get("spec_agrees")
 
 
-def run_stream(ctx, cases, dialect_name=None):
+def run_stream(ctx, cases, dialect_name=None, annot=False):
     """cases: list of (ty, value, entry).  Runs implementation and model, records verdicts."""
     lines = []
     metas = []
@@ -74,6 +74,7 @@ def run_stream(ctx, cases, dialect_name=None):
         dialect = getattr(importlib.import_module(modname), dialect_name)
     for ty, value, entry in cases:
         reg = S.Reg(mixin=(entry == "mixin"))
+        reg.annot = annot
         try:
             if dialect is None:
                 out, r, viter = corelib.real_pack(ty, value, reg, entry)
@@ -92,6 +93,9 @@ def run_stream(ctx, cases, dialect_name=None):
     outs = ctx.model(lines)
     for i, (ty, value, entry, out, r, reg) in enumerate(metas):
         case = {"ty": ty, "value": value, "entry": entry, "dialect": dialect_name}
+        if annot:
+            case["annot"] = annot
+            ctx.bump("annotated-wrapper cases")
         ctx.count(case, nontrivial(ty), kind=f"root:{gen.tag_of(ty)}")
         ctx.bump(f"depth:{gen.depth_of(ty)}")
         m_impl = outs[2 * i] if outs else None
@@ -171,12 +175,21 @@ def run(ctx):
     n, depth = (2500, 3) if ctx.tier == "quick" else (40000, 4)
     corpus = [(ty, v, "codec") for ty, v in CORPUS]
     run_stream(ctx, corpus)
+    from . import decode
+
+    for mode, cs in decode.fixed_corpus(ctx, key="value").items():
+        run_stream(ctx, [(t, v, e) for t, v, e, _o in cs], annot=mode)
     done = 0
     chunk = 2500
     while done < n and ctx.time_left() > 30:
         k = min(chunk, n - done)
         run_stream(ctx, gen_cases(ctx, k, depth))
         done += k
+    # the same generator with every annotation wrapped in Annotated[..., metadata]
+    na = 600 if ctx.tier == "quick" else 8000
+    for mode in (True, "newtype", "typealias"):
+        if ctx.time_left() > 30:
+            run_stream(ctx, gen_cases(ctx, na // 2 if mode is not True else na, depth), annot=mode)
     # format dialects: same generator, dialect handed to the basic codec
     nd = 500 if ctx.tier == "quick" else 8000
     for dn in ("OrjsonDialect", "MessagePackDialect", "TOMLDialect"):
@@ -193,5 +206,5 @@ def run(ctx):
 def replay(ctx, body):
     case = body["case"]
     ctx.lean_ok = True
-    run_stream(ctx, [(case["ty"], case["value"], case.get("entry", "codec"))], dialect_name=case.get("dialect"))
+    run_stream(ctx, [(case["ty"], case["value"], case.get("entry", "codec"))], dialect_name=case.get("dialect"), annot=case.get("annot", False))
     return ctx.finish()
